@@ -6,7 +6,7 @@ package main
 var charTable = map[string]rune{
 	"(": '(', ")": ')', "[": '[', "]": ']', ",": ',', ";": ';', "Q": '"',
 	"SP": ' ', "TAB": '\t', "NBSP": ' ', "IDSP": '　', "CR": '\r', "NL": '\n',
-	"Eacute": 'é', "BS": '\\', "CTL": '\x01', "U": '€',
+	"Eacute": 'é', "Agrave": 'à', "Aring": 'Å', "Ni": '你', "BS": '\\', "CTL": '\x01', "U": '€',
 	"-": '-', "+": '+', ".": '.', "_": '_', "!": '!',
 	":": ':', "<": '<', "=": '=', ">": '>', "&": '&', "|": '|', "*": '*', "/": '/', "%": '%',
 }
